@@ -292,6 +292,11 @@ Print Assumptions C15_generated_loops_are_model.
    (member type and roles interned as the harness does, the ways map as an association list) *)
 Theorem C15_generated_group_is_model : forall ws ms at_, gen_group ws ms at_ = group ms ws at_.
 Proof. exact gen_group_ok. Qed.
+
+(* Segment.Reverse (called by Group) is regenerated too; orb.LineString.Reverse is [rev] *)
+Theorem C15_generated_segment_reverse_is_model : forall s,
+  gen_segment_reverse (s_index s) (s_orient s) (s_reversed s) (s_line s) = seg_reverse s.
+Proof. exact gen_segment_reverse_ok. Qed.
 Print Assumptions C15_generated_group_is_model.
 
 Theorem C15_loop_iteration_is_generated_apply_update :
